@@ -980,6 +980,8 @@ def r_highbyte(P, chk):
                 continue
             for a, b in ((x["c"][0], x["c"][1]), (x["c"][1], x["c"][0])):
                 cv = const_value(b)
+                if cv is not None and cv >= 1 << 31:
+                    cv -= 1 << 32          # '\xA0' as a (sign-extended) int constant
                 if cv is None or not (128 <= cv <= 255 or -128 <= cv < 0):
                     continue
                 sa = strip(a)
@@ -993,6 +995,23 @@ def r_highbyte(P, chk):
                     chk.obligation(rid, "%s %s: %s" % (f.where(x), f.name, key(x)[:50]), False)
                     chk.violation(rid, "highbyte:%s:%s:%d" % (f.unit.base, f.name, cv & 0xff), f.where(x),
                                   "%s compares a single text byte with 0x%02x: bytes >= 0x80 are parts of multi-byte characters, not "
+                                  "characters" % (f.name, cv & 0xff))
+        # the switch form of the same test: `switch (*str) { case '\xC2': ..`
+        for x in f.walk():
+            if x["k"] != "SwitchStmt" or not text_byte(x["c"][0]):
+                continue
+            for y in walk(x["c"][1]):
+                if y["k"] != "CaseStmt" or y.get("v") is None:
+                    continue
+                own = next((a for a in f.ancestors(y) if a["k"] == "SwitchStmt"), None)
+                cv = y["v"]
+                if cv >= 1 << 31:
+                    cv -= 1 << 32
+                if own is x and (128 <= cv <= 255 or -128 <= cv < 0):
+                    n += 1
+                    chk.obligation(rid, "%s %s: case 0x%02x on a text byte" % (f.where(y), f.name, cv & 0xff), False)
+                    chk.violation(rid, "highbyte:%s:%s:%d" % (f.unit.base, f.name, cv & 0xff), f.where(y),
+                                  "%s has a case for the single text byte 0x%02x: bytes >= 0x80 are parts of multi-byte characters, not "
                                   "characters" % (f.name, cv & 0xff))
     chk.floor(rid, n, 1, "comparisons of text bytes with high constants")
 
@@ -1158,6 +1177,121 @@ def r_canonkey(P, chk):
                           "guard never matches and expansion does not terminate" % (w, v))
     chk.analysed[rid] = {"definitions": len(defs), "carried_params": sorted(carried), "canonical_locals": sorted(canon),
                          "tainted_definitions": len(tainted)}
+
+
+# ---------------------------------------------------------------------------
+# R-RANGEBASE: a (text, start, len) range is scanned from text + start, never from text
+
+BOUNDED_SCANNERS = {"memchr": (0, 2), "memrchr": (0, 2), "strncmp": (0, 2), "memcmp": (0, 2), "strnlen": (0, 1), "strncpy": (1, 2),
+                    "memcpy": (1, 2), "my_strndup": (0, 1), "strndup": (0, 1), "strncasecmp": (0, 2)}
+
+
+def range_triples(P):
+    """{function id: (text parameter, start parameter, length parameter)}: functions that take a text pointer together with
+    a start offset and a length, found from what they do - they index `text[start + ..]` / form `&text[start]`, `text + start`
+    - or from handing exactly these three parameters on to such a function (fixpoint over the call graph)."""
+    if hasattr(P, "_range_triples"):
+        return P._range_triples
+    ints = ("size_t", "int", "long", "unsigned int", "unsigned long", "short")
+    trip = {}
+    cands = []
+    for f in P.all_funcs:
+        if not P.first_party(f) or f.unit.base in ("miniz.c", "argtable3.c"):
+            continue
+        ptrs = [i for i, q in enumerate(f.params) if q[1].replace("const", "").replace(" ", "") in ("char*", "unsignedchar*")]
+        nums = [i for i, q in enumerate(f.params) if q[1].replace("const", "").strip() in ints]
+        if ptrs and len(nums) >= 2:
+            cands.append((f, ptrs, nums))
+    for f, ptrs, nums in cands:
+        for ip in ptrs:
+            S = f.params[ip][0]
+            for ia in nums:
+                A = f.params[ia][0]
+                used = False
+                # cursors: locals that start out as the start offset (`size_t counter = start;`)
+                cursors = {A}
+                for x in f.walk():
+                    if x["k"] == "VarDecl" and x.get("c") and x["c"][0] is not None and key(x["c"][0]) == A:
+                        cursors.add(x["n"])
+                    elif x["k"] == "BinaryOperator" and x["op"] == "=" and key(x["c"][1]) == A:
+                        cursors.add(key(x["c"][0]))
+                for x in f.walk():
+                    if x["k"] == "ArraySubscriptExpr" and key(x["c"][0]) == S:
+                        lf = _linear(f, x["c"][1])
+                        if lf and (lf.get(A) == 1 or any(lf.get(cu) == 1 for cu in cursors)):
+                            used = True
+                        ix = strip(x["c"][1])
+                        if ix is not None and ix["k"] == "UnaryOperator" and ix["op"] in ("post++", "pre++") and key(ix["c"][0]) in cursors:
+                            used = True
+                    elif x["k"] == "BinaryOperator" and x["op"] == "+" and key(x["c"][0]) == S:
+                        lf = _linear(f, x["c"][1])
+                        if lf and lf.get(A) == 1:
+                            used = True
+                if not used:
+                    continue
+                # the length: an integer parameter added to the start (`start + len`) somewhere
+                for ib in nums:
+                    if ib == ia:
+                        continue
+                    B = f.params[ib][0]
+                    for x in f.walk():
+                        if x["k"] == "BinaryOperator" and x["op"] == "+":
+                            lf = _linear(f, x)
+                            if lf and lf.get(A) == 1 and lf.get(B) == 1:
+                                trip[P.fid(f)] = (ip, ia, ib)
+    changed = True
+    while changed:
+        changed = False
+        for f, ptrs, nums in cands:
+            if P.fid(f) in trip:
+                continue
+            names = {q[0]: i for i, q in enumerate(f.params)}
+            for c in f.calls():
+                g = P.resolve(f, c.get("callee") or "")
+                if g is None or P.fid(g) not in trip:
+                    continue
+                ip, ia, ib = trip[P.fid(g)]
+                args = c["c"][1:]
+                if max(ip, ia, ib) >= len(args):
+                    continue
+                ks = [key(args[ip]), key(args[ia]), key(args[ib])]
+                if all(k_ in names for k_ in ks) and len(set(ks)) == 3:
+                    trip[P.fid(f)] = (names[ks[0]], names[ks[1]], names[ks[2]])
+                    changed = True
+                    break
+    P._range_triples = trip
+    return trip
+
+
+def r_rangebase(P, chk, units=None):
+    rid = "R-RANGEBASE"
+    chk.rule(rid, "a function that works on the range (text, start, len) hands a length-bounded libc routine `text + start`, never the "
+                  "bare `text` with a bound taken from len (that would examine the first len bytes of the whole string)")
+    trip = range_triples(P)
+    chk.floor(rid, len(trip), 4, "functions taking a (text, start, length) range")
+    n = 0
+    for fid, (ip, ia, ib) in sorted(trip.items()):
+        f = P.by_fid(fid)
+        if units is not None and f.unit.base not in units:
+            continue
+        S, A, B = f.params[ip][0], f.params[ia][0], f.params[ib][0]
+        bad = None
+        for c in f.calls():
+            spec = BOUNDED_SCANNERS.get(c.get("callee"))
+            if not spec or len(c["c"]) <= 1 + max(spec):
+                continue
+            n += 1
+            ptr, bound = c["c"][1 + spec[0]], c["c"][1 + spec[1]]
+            lf = _linear(f, bound)
+            if resolve_key(f, ptr).replace("(", "").replace(")", "") == S and lf and lf.get(B):
+                bad = c
+                break
+        chk.obligation(rid, "%s(%s, %s, %s): no bounded scan from the bare text pointer" % (f.name, S, A, B), bad is None)
+        if bad is not None:
+            chk.violation(rid, "rangebase:%s:%s" % (f.name, bad.get("callee")), f.where(bad),
+                          "%s works on the range (%s, %s, %s) but calls %s on `%s` itself with a bound taken from `%s`: it looks at the "
+                          "first %s bytes of the whole string, not at the range" % (f.name, S, A, B, bad.get("callee"), S, B, B))
+    chk.analysed[rid] = {"range_functions": sorted(P.by_fid(k).name for k in trip), "bounded_calls_seen": n}
 
 
 # ---------------------------------------------------------------------------
